@@ -3,6 +3,7 @@ package main
 // Semantics of the non-control SSA instructions.
 
 import (
+	"os"
 	"fmt"
 	"go/constant"
 	"go/token"
@@ -266,7 +267,7 @@ func (e *Engine) instr(st *State, fr *Frame, ins ssa.Instruction) {
 			return
 		}
 		if at, ok := t.Underlying().(*types.Array); ok {
-			r := e.alloc(st, types.Typ[types.Int], false)
+			r := e.alloc(st, types.Typ[types.Int], true) // (owned until a slice of it is stored or passed on)
 			e.zeroElems(st, at.Elem(), r)
 			e.set(st, x, Val{K: KPtr, Ty: x.Type(), T: r})
 			return
@@ -278,7 +279,9 @@ func (e *Engine) instr(st *State, fr *Frame, ins ssa.Instruction) {
 	case *ssa.Store:
 		a := e.get(st, x.Addr)
 		v := e.get(st, x.Val)
-		e.escape(st, v)
+		if !(a.K == KAddr && a.A != nil && a.A.CellID != 0) {
+			e.escape(st, v) // (a value kept in a local variable of this function has not escaped)
+		}
 		e.checkNilAddr(st, fr, a, x.Pos(), x.Addr)
 		e.store(st, a, v, x.Val.Type())
 	case *ssa.UnOp:
@@ -879,7 +882,7 @@ func (e *Engine) escape(st *State, v Val) {
 	}
 	var t string
 	switch v.K {
-	case KPtr, KIface:
+	case KPtr, KIface, KSlice, KMap:
 		t = v.T
 	case KStruct, KTuple:
 		for _, f := range v.F {
@@ -888,6 +891,9 @@ func (e *Engine) escape(st *State, v Val) {
 		return
 	default:
 		return
+	}
+	if os.Getenv("GOVC_DBGOWN") != "" {
+		fmt.Fprintln(os.Stderr, "escape", t)
 	}
 	for i, o := range st.owned {
 		if o.ref == t || strings.HasPrefix(t, "(+ "+o.ref+" ") {
